@@ -127,6 +127,7 @@ EmptyShapes == <<
 
 DeepShapes == <<
   WithMid("d.obj", MsgF("Mid", 1, "Mid")),
+  WithMid("d.obj.val", NonNull(MsgF("Mid", 1, "Mid"))),
   WithMid("d.list", Rep(MsgF("Subs", 1, "Mid"))),
   WithMid("d.map", MapOf(MsgF("Dict", 1, "Mid"))) >>
 
